@@ -23,10 +23,10 @@ type abs struct {
 var muts = []string{"sig-bytes", "sig-replay", "sig-future", "sig-owner", "sig-key", "ops-dup", "ops-unknown", "ops-toomany",
 	"ops-size", "ops-empty", "len-short", "len-long", "own-garbage", "own-nothex", "own-mismatch", "dup-other-owner"}
 
-var kindsC11 = []string{"opadd", "opadd", "oprem", "vaddok", "vaddok", "vaddok", "vaddok", "vaddok", "vaddmut", "vaddmut", "vaddmut", "vaddmut", "vaddmut",
+var kindsC11 = []string{"opadd", "opadd", "opdup", "opdup", "oprem", "vaddok", "vaddok", "vaddok", "vaddok", "vaddok", "vaddmut", "vaddmut", "vaddmut", "vaddmut", "vaddmut",
 	"vrem", "vrem", "vrem", "vexit", "vexit", "vexit", "liq", "liq", "react", "react", "fee", "fee", "meta", "meta"}
 
-var kindsOwn = []string{"opadd", "oprem", "vaddok", "vaddok", "vaddok", "vaddok", "vaddok", "vaddok", "vaddmut", "vaddmut",
+var kindsOwn = []string{"opadd", "opdup", "oprem", "vaddok", "vaddok", "vaddok", "vaddok", "vaddok", "vaddok", "vaddmut", "vaddmut",
 	"vrem", "vrem", "vrem", "vrem", "vexit", "liq", "liq", "liq", "react", "react", "react", "fee"}
 
 func genAbs(kinds []string) func(t *rapid.T) abs {
@@ -63,31 +63,56 @@ func GenScenario(t *rapid.T, b Bias) Scenario {
 	}
 	nowners := rapid.IntRange(2, MaxOwners).Draw(t, "nowners")
 	nvals := rapid.IntRange(1, MaxValidators).Draw(t, "nvals")
+	// our key first announced under another (smaller) id than Us: that id becomes ours, the later one is refused
+	early := 0
+	if us >= 2 && rapid.IntRange(0, 11).Draw(t, "early_own_key") == 0 {
+		early = rapid.IntRange(1, us-1).Draw(t, "early_id")
+	}
 	as := rapid.SliceOfN(rapid.Custom(genAbs(kinds)), 1, b.MaxEvents).Draw(t, "events")
 	if more := rapid.SliceOfN(rapid.Custom(genAbs(kinds)), 0, b.MaxEvents/2).Draw(t, "more_events"); len(as)+len(more) <= b.MaxEvents {
 		as = append(as, more...)
 	}
-	return Resolve(nops, us, nowners, nvals, pre, b.OwnHeavy, as)
+	return Resolve(nops, us, nowners, nvals, pre, early, b.OwnHeavy, as)
 }
 
 // Resolve builds the concrete program.
-func Resolve(nops, us, nowners, nvals, pre int, ownHeavy bool, as []abs) Scenario {
+func Resolve(nops, us, nowners, nvals, pre, early int, ownHeavy bool, as []abs) Scenario {
 	sc := Scenario{NOps: nops, Us: us}
 	m := NewModel()
 	emit := func(e Ev) {
 		sc.Events = append(sc.Events, e)
 		m.Apply(us, e, 0)
 	}
-	nextOp := func() uint64 {
-		for id := uint64(1); id <= uint64(nops); id++ {
-			if m.Operators[id] == nil {
+	// the contract hands out every operator id once: ids of refused registrations are used up too
+	used := map[uint64]bool{}
+	nextOp := func(max int) uint64 {
+		for id := uint64(1); id <= uint64(max); id++ {
+			if !used[id] {
+				return id
+			}
+		}
+		return 0
+	}
+	opadd := func(id uint64, o int) {
+		e := Ev{K: "opadd", Op: id, O: o}
+		if early != 0 && id == uint64(early) {
+			e.PK = -1
+			e.Note = "our key under another id, before our registration"
+		}
+		used[id] = true
+		emit(e)
+	}
+	// an id that was announced but refused (our key under a second id): unknown to committee validation
+	refusedID := func() uint64 {
+		for id := uint64(1); id <= uint64(nops+1); id++ {
+			if used[id] && m.Operators[id] == nil {
 				return id
 			}
 		}
 		return 0
 	}
 	for i := 0; i < pre; i++ {
-		emit(Ev{K: "opadd", Op: nextOp(), O: i % nowners})
+		opadd(nextOp(nops), i%nowners)
 	}
 	registered := func() []uint64 {
 		var ids []uint64
@@ -106,9 +131,10 @@ func Resolve(nops, us, nowners, nvals, pre int, ownHeavy bool, as []abs) Scenari
 	committee := func(size int, withUs bool, off int) []uint64 {
 		reg := registered()
 		var cand []uint64
-		usReg := us != 0 && m.Operators[uint64(us)] != nil
+		self := m.Self // the id our key is registered under (normally us)
+		usReg := self != 0
 		for _, id := range reg {
-			if usReg && id == uint64(us) {
+			if usReg && id == self {
 				continue
 			}
 			cand = append(cand, id)
@@ -116,7 +142,7 @@ func Resolve(nops, us, nowners, nvals, pre int, ownHeavy bool, as []abs) Scenari
 		need := size
 		var out []uint64
 		if withUs && usReg {
-			out = append(out, uint64(us))
+			out = append(out, self)
 			need--
 		} else if len(cand) < need && usReg {
 			cand = reg // not enough without us
@@ -149,7 +175,7 @@ func Resolve(nops, us, nowners, nvals, pre int, ownHeavy bool, as []abs) Scenari
 		if len(registered()) >= 7 && a.C%3 == 0 {
 			size = 7
 		}
-		ops := committee(size, forceUs || a.D < pUs, a.C/3)
+		ops := reorder(committee(size, forceUs || a.D < pUs, a.C/3), a.A/7, a.B)
 		return Ev{K: "vadd", O: o, V: v, Ops: ops, SigO: o, SigN: m.NextNonce(o), SigK: v}
 	}
 	for _, a := range as {
@@ -164,16 +190,44 @@ func Resolve(nops, us, nowners, nvals, pre int, ownHeavy bool, as []abs) Scenari
 		}
 		switch a.Kind {
 		case "opadd":
-			if id := nextOp(); id != 0 {
-				emit(Ev{K: "opadd", Op: id, O: a.A % nowners})
+			if id := nextOp(nops); id != 0 {
+				opadd(id, a.A%nowners)
 			} else {
 				emit(Ev{K: "fee", O: a.A % nowners, Fee: a.B % (NumFeeAddrs + 1)})
 			}
+		case "opdup":
+			// a fresh id announcing a key that is already registered: ours (refused once we have an id;
+			// if we have none yet, this IS our registration) or another operator's (nothing forbids it)
+			id := nextOp(nops + 1)
+			if id == 0 {
+				emit(Ev{K: "fee", O: a.A % nowners, Fee: a.B % (NumFeeAddrs + 1)})
+				break
+			}
+			e := Ev{K: "opadd", Op: id, O: a.A % nowners, PK: -1, Note: "our key under a second id"}
+			if reg := registered(); a.D < 30 && len(reg) > 0 {
+				if pk := m.pkOf(reg[a.B%len(reg)]); pk != -1 {
+					e.PK, e.Note = pk, "another operator's key under a new id"
+				}
+			}
+			if e.PK == -1 && m.Self == 0 {
+				e.Note = "our key under an unexpected id (first registration)"
+			}
+			used[id] = true
+			emit(e)
 		case "oprem":
 			emit(Ev{K: "oprem", Op: uint64(1 + a.A%(nops+1))})
 		case "vaddok":
 			e := baseAdd(a, false)
 			e.Note = "valid"
+			if rid := refusedID(); rid != 0 && a.D%8 == 0 && len(e.Ops) > 1 {
+				// otherwise valid, but one member is an operator whose registration the node refused
+				k := a.B % len(e.Ops)
+				if e.Ops[k] == m.Self {
+					k = (k + 1) % len(e.Ops)
+				}
+				e.Ops[k] = rid
+				e.Note = "ops-unknown (refused id)"
+			}
 			emit(e)
 		case "vaddmut":
 			e := baseAdd(a, len(a.Mut) > 4 && a.Mut[:4] == "own-")
@@ -201,17 +255,18 @@ func Resolve(nops, us, nowners, nvals, pre int, ownHeavy bool, as []abs) Scenari
 				}
 			case "ops-unknown":
 				if len(e.Ops) > 0 {
-					if id := nextOp(); id != 0 && a.A%2 == 0 {
-						e.Ops[len(e.Ops)-1] = id
-						e.Ops = sortedCopy(e.Ops)
-						// keep the committee duplicate-free: the point is the unknown operator
-						for k := 1; k < len(e.Ops); k++ {
-							if e.Ops[k] == e.Ops[k-1] {
-								e.Ops[len(e.Ops)-1] = uint64(nops + 2)
-							}
-						}
-					} else {
-						e.Ops[len(e.Ops)-1] = uint64(nops + 2 + a.A%3)
+					k := a.B % len(e.Ops)
+					if self := m.Self; self != 0 && e.Ops[k] == self && len(e.Ops) > 1 {
+						k = (k + 1) % len(e.Ops) // keep ourselves in: the refusal must come from the unknown id
+					}
+					switch id, rid := nextOp(nops), refusedID(); {
+					case rid != 0 && a.A%3 != 0:
+						e.Ops[k] = rid // announced, but refused: must still be unknown
+						e.Note = "ops-unknown (refused id)"
+					case id != 0 && a.A%2 == 0:
+						e.Ops[k] = id // not announced yet
+					default:
+						e.Ops[k] = uint64(nops + 2 + a.A%3) // never announced
 					}
 				}
 			case "ops-toomany":
@@ -284,6 +339,8 @@ func Resolve(nops, us, nowners, nvals, pre int, ownHeavy bool, as []abs) Scenari
 				case a.C%10 == 1 && len(e.Ops) > 1:
 					e.Ops = e.Ops[:len(e.Ops)-1]
 					e.Note = "other cluster"
+				case a.C%10 <= 4:
+					e.Ops = reorder(e.Ops, 2+a.C%3, a.A) // same cluster, ids listed in another order
 				}
 			}
 			emit(e)
@@ -304,4 +361,33 @@ func Resolve(nops, us, nowners, nvals, pre int, ownHeavy bool, as []abs) Scenari
 		}
 	}
 	return sc
+}
+
+// reorder lists a committee in one of several orders: ascending (the order the contract's front ends
+// use), descending, rotated, or shuffled. Nothing in the registration rules depends on the order, but
+// the i-th public share and encrypted key belong to the i-th id as listed.
+func reorder(ops []uint64, mode, seed int) []uint64 {
+	out := append([]uint64(nil), ops...)
+	n := len(out)
+	if n < 2 {
+		return out
+	}
+	switch mode % 5 {
+	case 0, 1: // as is
+	case 2:
+		for i, j := 0, n-1; i < j; i, j = i+1, j-1 {
+			out[i], out[j] = out[j], out[i]
+		}
+	case 3:
+		r := 1 + seed%(n-1)
+		out = append(out[r:], out[:r]...)
+	case 4:
+		x := uint32(seed*2654435761 + 12345)
+		for i := n - 1; i > 0; i-- {
+			x = x*1664525 + 1013904223
+			j := int(x>>8) % (i + 1)
+			out[i], out[j] = out[j], out[i]
+		}
+	}
+	return out
 }
